@@ -6,6 +6,7 @@ import (
 	"context"
 	"errors"
 	"fmt"
+	"html/template"
 	"io"
 	"os"
 	"syscall"
@@ -13,10 +14,11 @@ import (
 	"go.pennock.tech/tabular"
 	"go.pennock.tech/tabular/auto"
 	"go.pennock.tech/tabular/csv"
+	"go.pennock.tech/tabular/html"
 	"go.pennock.tech/tabular/json"
 	"go.pennock.tech/tabular/markdown"
-	"go.pennock.tech/tabular/texttable"
 	"go.pennock.tech/tabular/properties/align"
+	"go.pennock.tech/tabular/texttable"
 
 	"verif/harness/internal/ev"
 	"verif/harness/internal/gen"
@@ -42,6 +44,18 @@ type Case struct {
 	Rich bool `json:"rich,omitempty"`
 	// Repeat: the script's rows are replayed this many times more (big tables cross internal buffer sizes)
 	Repeat int `json:"repeat,omitempty"`
+	// RowClass (html only): the wrapper has a row-class generator installed
+	RowClass bool `json:"row_class,omitempty"`
+}
+
+// withRowClass installs a row-class generator on an HTML wrapper.
+func (c Case) withRowClass(rw auto.RenderTable) auto.RenderTable {
+	if ht, ok := rw.(*html.HTMLTable); ok && c.RowClass {
+		ht.SetRowClassGenerator(func(n int, _ interface{}) template.HTMLAttr {
+			return template.HTMLAttr(fmt.Sprintf("r%d", n%2))
+		}, nil)
+	}
+	return rw
 }
 
 var errFault = errors.New("injected write failure")
@@ -153,7 +167,7 @@ func FaultPoint(c Case, k int, mode string, want string) *ev.Violation {
 	}
 	fw := &faultWriter{k: k, mode: mode}
 	var err error
-	rw := auto.Wrap(t, c.Style)
+	rw := c.withRowClass(auto.Wrap(t, c.Style))
 	if v := ev.Guard(func() *ev.Violation {
 		err = rw.RenderTo(c.writer(fw))
 		return nil
@@ -171,8 +185,9 @@ func FaultPoint(c Case, k int, mode string, want string) *ev.Violation {
 		return ev.V("%s: write %d failed (%s): the bytes the writer accepted are not a prefix of the fault-free output (rendering went on after the failure)\n--- accepted\n%q\n--- fault-free\n%q", c.Style, k, mode, got, want)
 	}
 	// the package-level entry points are renderers too: the same fault, on a fresh writer each
-	entries := map[string]func(io.Writer) error{
-		"auto.RenderTo(t, w, style)": func(w io.Writer) error { return auto.RenderTo(t, w, c.Style) },
+	entries := map[string]func(io.Writer) error{}
+	if !c.RowClass {
+		entries["auto.RenderTo(t, w, style)"] = func(w io.Writer) error { return auto.RenderTo(t, w, c.Style) }
 	}
 	switch c.Style {
 	case "csv":
@@ -234,7 +249,7 @@ func Points(c Case) (int, string) {
 	}
 	// count with the same kind of writer that will be used (a rich writer may be written to differently)
 	fw := &faultWriter{k: -1, mode: "none"}
-	if err := auto.RenderTo(t, c.writer(fw), c.Style); err != nil {
+	if err := c.withRowClass(auto.Wrap(t, c.Style)).RenderTo(c.writer(fw)); err != nil {
 		return 0, ""
 	}
 	return fw.calls, fw.accepted.String()
